@@ -406,6 +406,10 @@ def check_diff(case) -> list[Fail]:
     docs = [("valid", doc, ("$",))]
     if m is not None:
         docs.append((case["mut"], m[0], m[1]))
+    if case["mut"] != "top-level-unknown-key":
+        # every document also with one unknown key at its top level (cheap, and the place where an entry point of
+        # the decoder can differ from the models)
+        docs.append(("top-level-unknown-key", dict(doc, zz_unknown_key=1), ("$",)))
     for what, d, path in docs:
         for mode in ("strict", "lax"):
             a = pydantic_accepts(mode, kind, d)
